@@ -253,6 +253,12 @@ func scenarios(tier string) []*vsched.Scenario {
 		{nil, [][]stepSpec{{o(1), o(2)}, {po(), po()}}},
 		{nil, [][]stepSpec{{o(1), po()}, {o(2), po()}}},
 		{[]int{7}, [][]stepSpec{{po()}, {po()}, {o(1)}}},
+		// every removal entry point also on an empty (or emptied) queue, against an insertion or another removal
+		{nil, [][]stepSpec{{ta()}, {o(1)}}},
+		{nil, [][]stepSpec{{ta()}, {pu(1)}}},
+		{[]int{7}, [][]stepSpec{{ta()}, {ta()}}},
+		{nil, [][]stepSpec{{ta()}, {po()}}},
+		{nil, [][]stepSpec{{po(), ta()}, {pu(1), o(2)}}},
 	}
 	stack := []sc{
 		{[]int{7}, [][]stepSpec{{pp()}, {pp()}}},
@@ -260,6 +266,8 @@ func scenarios(tier string) []*vsched.Scenario {
 		{[]int{7, 8}, [][]stepSpec{{pp()}, {pp()}}},
 		{nil, [][]stepSpec{{ps(1), pp()}, {ps(2), pp()}}},
 		{[]int{7}, [][]stepSpec{{pp()}, {pp()}, {ps(1)}}},
+		{nil, [][]stepSpec{{pp()}, {pp()}}},
+		{nil, [][]stepSpec{{pp(), pp()}, {ps(1), ps(2)}}},
 	}
 	if tier == "thorough" {
 		queue = append(queue,
